@@ -4,16 +4,17 @@ monitor of the property statement on the observed deliveries."""
 import re
 PROP = "C09"
 COQ_IMPORTS = "From SV Require Import Model.Subscription."
-READY = False
+READY = True
 XCHECK = 12
 NP, SPP = 4, 4
 RULE = ("scenario = initial on-disk logs of 4 partitions (transactions of 1..3 events over <= 3 streams each, a confirmed prefix followed by a mix, a quarter with the watermark inside a transaction) "
         "+ one subscription (kind cycles all-partitions / one partition / several partitions / one stream / several streams; start Latest, AllPartitions(n)/AllStreams(n), explicit map with or without "
         "fallback, positions 0 / watermark / watermark-1 / end / beyond / random; window cycles 1, 2, 10, sometimes 100) + a schedule of 3..20 steps before/after Subscribe drawn from "
         "{direct unconfirmed append, ConfirmTransaction (watermark moves, nothing broadcast), ExecuteTransaction (append+confirm+broadcast), ack, release one history pause point, release all, flush} "
-        "and a closing sequence (confirm, one write per partition, flush). 300 such scenarios (quick) / 4000 (thorough); plus 60 / 800 'batches' scenarios (a 52..125-transaction partition so that the "
-        "history read takes several batches, the watermark / log / acknowledgements change at the pause point between batches) and 6 / 40 'lag' scenarios (> 1024 events are broadcast while the "
-        "subscription waits at a pause point or for an acknowledgement: Lagged -> history re-read). The subscription task runs freely between steps; the harness waits after each step until the "
+        "and a closing sequence (confirm, one write per partition, flush). 300 such scenarios (quick) / 2400 (thorough); plus 60 / 500 'batches' scenarios (a 52..125-transaction partition so that the "
+        "history read takes several batches, the watermark / log / acknowledgements change at the pause point between batches) and 5 / 30 'lag' scenarios (> 1024 events are broadcast while the "
+        "subscription waits at a pause point or for an acknowledgement: Lagged -> history re-read) and 3 / 10 'lag-live' scenarios (a live subscription that holds a received record behind a "
+        "closed window while > 1024 new events are appended, confirmed and broadcast: the events it still needs are dropped and only the re-read delivers them). The subscription task runs freely between steps; the harness waits after each step until the "
         "task is provably blocked (hook log). Every scenario is also run through the extracted model (same annotated schedule) and the outputs must be equal. "
         "A case is non-trivial when at least one record was delivered. distinct = distinct case strings.")
 ASSUMPTIONS = [
